@@ -27,10 +27,10 @@ class C13(Harness):
     assumptions = ('non-dynamic values; parameters x (bounded Number), y (String), k (constant list), f (Filename resolved against a search path) and an added z',)
 
     def bounds(self, tier):
-        return {'depth': 4 if tier == 'quick' else 5}
+        return {'depth': 3 if tier == 'quick' else 5}
 
     def depth(self, tier, cfg):
-        return 4 if tier == 'quick' else 5
+        return 3 if tier == 'quick' else 5
 
     def fresh(self):
         import param
@@ -53,6 +53,9 @@ class C13(Harness):
             ops.append(['cset', K, 'y', 'q'])
             ops.append(['addp', K, 'z'])
             ops.append(['addp', K, 'x'])
+        for K in ('A', 'B'):
+            ops.append(['csetp', K, 'z'])          # a Parameter object assigned as a class attribute
+            ops.append(['csetp', K, 'x'])
         if len(w['inst']) < 2:
             ops += [['new', 'B'], ['new', 'C'], ['new', 'A'], ['new', 'D']]
         for i in range(len(w['inst'])):
@@ -75,6 +78,12 @@ class C13(Harness):
                 K.param.add_parameter('z', param.Number(default=7))
             else:
                 K.param.add_parameter('x', param.Number(default=4, bounds=(0, 100)))
+        elif k == 'csetp':
+            K = w[op[1]]
+            if op[2] == 'z':
+                setattr(K, 'z', param.Number(default=7))
+            else:
+                setattr(K, 'x', param.Number(default=4, bounds=(0, 100)))
         elif k == 'new':
             w['inst'].append(w[op[1]]())
         elif k == 'iset':
